@@ -12,7 +12,14 @@ lockeng.rs) and on the extracted model Misc/Lock.v instantiated with the variant
   * a Tree dropped on a thread outside any tokio runtime (`dropout`) has released the lock when drop() returns:
     the flock probe taken at that instant (`dropprobe`, no waiting) says `free` and the next open — in this
     process or in a child — succeeds while the dropped Tree's runtime still exists (finding F28, repaired: the
-    class drop_outside_runtime_keeps_lock is no longer a known finding, any recurrence is a violation)."""
+    class drop_outside_runtime_keeps_lock is no longer a known finding, any recurrence is a violation);
+  * the lock is an flock on the INODE that the name <dir>/LOCK denotes, so a holder must never remove or replace that
+    name: the operations of a live store that rewrite its directory — `ckpt` (create_checkpoint into a side directory)
+    and `restore` (restore_from_checkpoint from it: the data sub-directories are removed and copied back), in this
+    process and in a child (`pckpt` / `prestore`) — may change the store's files, never LOCK (name, content), the set of
+    top-level directories or the lock: after every restore the flock probe must say `held`, `lockid` must say that
+    LOCK is still the inode the holder found or created when it opened, and two further opens (in-process and child)
+    must be refused and change nothing."""
 import os, re
 from . import common as C
 
@@ -25,6 +32,11 @@ TRUSTED = [
     "a second close of a closed store is modelled as changing no file (checked by directory snapshots on every explored order)",
     "script-level operations run one after the other; the theorems cover all interleavings of the micro steps, the "
     "differential run only sequential orders",
+    "modelled, not verified: a restore is two steps (files: clear_current_state + copy back; reload) that change the version "
+    "counter only — that nothing at the top level of the directory (the name LOCK) is touched is the generated flag "
+    "LOCK_RESTORE_KEEPS_LOCK_NAME (anchors over src/checkpoint.rs, Tree::restore_from_checkpoint) and is observed by the "
+    "inode / flock / second-open probes after every restore of the scripts; checkpoint and restore of a CLOSED handle are "
+    "not part of the model nor of the scripts",
 ]
 ASSUMPTIONS = [
     "the operating system implements flock(2) as documented (exclusive, per open file description, released on last close / process death)",
@@ -32,16 +44,21 @@ ASSUMPTIONS = [
 ]
 
 KIDS_OPS = ("pclose", "pkill", "pexit", "pdrop")
+# operations of a live store that rewrite its directory (the holder stays the holder)
+LIVE_OPS = ("ckpt", "restore", "pckpt", "prestore")
+PROBE_ID = 9        # opener id of the two opens tried after every restore (one in-process, one child)
 CONFIGS = [(2, 0), (1, 1), (0, 2), (3, 0), (2, 1), (1, 2), (0, 3)]
 LEN = 6
 
 
 # --------------------------------------------------------------------------- generation
-def enum_sequences(nI, nC, L):
+def enum_sequences(nI, nC, L, restore=False):
     """all well-formed operation orders of length L over nI in-process openers and nC child processes,
     up to renaming of openers of the same kind (an opener is first used only after the lower-numbered ones
     of its kind).  Well-formed = the operation has a target: open/spawn of an absent opener, close/drop of
-    an existing Tree handle (live or already closed), pclose/pdrop/pexit/pkill of a running child."""
+    an existing Tree handle (live or already closed), pclose/pdrop/pexit/pkill of a running child; with
+    restore=True also restore of a live in-process store / prestore of a running child (the script takes the
+    checkpoint right before the first of them)."""
     ents = [("I", i + 1) for i in range(nI)] + [("C", i + 1) for i in range(nC)]
     out = []
 
@@ -54,9 +71,9 @@ def enum_sequences(nI, nC, L):
                 continue
             s = st[idx]
             if k == "I":
-                ops = ["open"] if s == "absent" else ["close", "drop"]
+                ops = ["open"] if s == "absent" else ["close", "drop"] + (["restore"] if restore and s == "live" else [])
             else:
-                ops = ["spawn"] if s == "absent" else list(KIDS_OPS)
+                ops = ["spawn"] if s == "absent" else list(KIDS_OPS) + (["prestore"] if restore else [])
             for o in ops:
                 st2 = list(st)
                 h2 = holder
@@ -64,6 +81,8 @@ def enum_sequences(nI, nC, L):
                     if holder is None:
                         st2[idx] = "live"
                         h2 = idx
+                elif o in LIVE_OPS:
+                    pass
                 elif o == "close":
                     st2[idx] = "closed"
                     if holder == idx:
@@ -92,8 +111,12 @@ class Book:
 
 def build_script(seq, opt="-", opts_by_ent=None):
     """script lines + meta for one operation order; after every operation: commit by the opener (a no-op
-    if it holds no store), snapshot, holder.  dropout/rtgone are in-process operations."""
+    if it holds no store), snapshot, holder.  dropout/rtgone are in-process operations.  ckpt/restore (pckpt/prestore)
+    are operations of a live store: the first restore of a script is preceded by a checkpoint of the same store unless
+    the order made one already; after every restore: snapshot, flock probe, identity of the inode called LOCK, then an
+    in-process and a child open (opener PROBE_ID) that must be refused, each with snapshot + flock probe."""
     lines, meta = [], []
+    have_ckpt = False
 
     def add(l, **m):
         lines.append(l)
@@ -102,9 +125,28 @@ def build_script(seq, opt="-", opts_by_ent=None):
     add("lk snapshot", kind="snap", after=None)
     add("lk holder", kind="holder")
     for step, (o, n) in enumerate(seq):
-        ent = ("C", n) if o in ("spawn",) + KIDS_OPS else ("I", n)
+        ent = ("C", n) if o in ("spawn", "pckpt", "prestore") + KIDS_OPS else ("I", n)
         eo = (opts_by_ent or {}).get(ent, opt)
         at = len(lines)
+        if o in LIVE_OPS:
+            pre = "p" if ent[0] == "C" else ""
+            if o in ("restore", "prestore") and not have_ckpt:
+                add("lk %sckpt %d" % (pre, n), kind="op", op=pre + "ckpt", ent=ent, step=step)
+                add("lk snapshot", kind="snap", after=at)
+                add("lk holder", kind="holder")
+                at = len(lines)
+            have_ckpt = True
+            add("lk %s %d" % (o, n), kind="op", op=o, ent=ent, step=step)
+            add("lk snapshot", kind="snap", after=at)
+            add("lk holder", kind="holder")
+            add("lk %slockid %d" % (pre, n), kind="lockid", ent=ent)
+            if o in ("restore", "prestore"):
+                for po in ("open", "spawn"):
+                    at = len(lines)
+                    add("lk %s %d %s" % (po, PROBE_ID, eo), kind="op", op=po, ent=("I" if po == "open" else "C", PROBE_ID), step=step, opt=eo, probe=True)
+                    add("lk snapshot", kind="snap", after=at)
+                    add("lk holder", kind="holder")
+            continue
         if o in ("open", "spawn"):
             add("lk %s %d %s" % (o, n, eo), kind="op", op=o, ent=ent, step=step, opt=eo)
             add("lk %s %d %02x %02x" % ("commit" if o == "open" else "pcommit", n, 0x61 + step, 0x30 + n), kind="commit", ent=ent)
@@ -151,9 +193,26 @@ def check_script(lines, meta, impl, model, res, stats):
     cur_non_holder = False
     cur_expect_refused = False
     has_refusal = False
+    cur_op_line = None      # index of the last operation (kept after its snapshot)
+    cur_keeps_lock = False  # the operation is a checkpoint / restore of the live holder: LOCK and the lock must stay
+    # what a holder's checkpoint / restore did to LOCK: reported together with the open that gets in because of it
+    # (the probe opens follow at once), or on its own if every probe is refused
+    notes = []
 
     def violation(i, what):
         res["violations"].append((what + " [" + lines[i] + "]", replay_text(lines, impl, model, i, what)))
+
+    def note(i, what):
+        notes.append((i, what))
+
+    def flush_notes(i=None):
+        """True if there was something to report"""
+        if not notes:
+            return False
+        j = notes[-1][0] if i is None else i
+        violation(j, "; ".join(w for _, w in notes))
+        del notes[:]
+        return True
 
     def known(i, cls, what):
         """i = index of the last command a replay needs (the snapshot / probe that shows the effect)"""
@@ -199,8 +258,21 @@ def check_script(lines, meta, impl, model, res, stats):
         if k == "op":
             o, ent = m["op"], m["ent"]
             stats["ops"][o] = stats["ops"].get(o, 0) + 1
-            cur_op, cur_non_holder, cur_expect_refused = i, False, False
-            if o in ("open", "spawn"):
+            if notes and not m.get("probe"):
+                flush_notes()
+                return
+            cur_op, cur_non_holder, cur_expect_refused, cur_keeps_lock = i, False, False, False
+            if o in LIVE_OPS:
+                stats["live_ops"] = stats.get("live_ops", 0) + 1
+                if b.holder != ent:
+                    # not generated (checkpoint / restore through a handle that is not the live holder)
+                    violation(i, "script error: `%s` by %s%d, which is not the live holder" % ((o,) + ent))
+                    return
+                cur_keeps_lock = True
+                if il != "ok":
+                    violation(i, "%s of the live store failed: %s" % (o, il))
+                    return
+            elif o in ("open", "spawn"):
                 invalid = "bad" in m.get("opt", "")
                 if invalid:
                     cur_non_holder = True
@@ -230,7 +302,8 @@ def check_script(lines, meta, impl, model, res, stats):
                     has_refusal = True
                     stats["refused"] += 1
                     if il == "ok":
-                        violation(i, "MUTUAL EXCLUSION: a second open succeeded while %s%d holds the store" % b.holder)
+                        violation(i, "MUTUAL EXCLUSION: a second open succeeded while %s%d holds the store" % b.holder
+                                  + (" (it is live: it was restored from a checkpoint just before — " + "; ".join(w for _, w in notes) + ")" if notes else ""))
                         return
                     if il != "refused":
                         violation(i, "an open while a holder is live must be refused with the lock error; answer: " + il)
@@ -274,7 +347,11 @@ def check_script(lines, meta, impl, model, res, stats):
             exp = "absent" if not b.lock_exists else ("held" if b.holder is not None else "free")
             if m.get("instant"):
                 stats["drop_probes"] = stats.get("drop_probes", 0) + 1
-            if il != exp:
+            if il != exp and cur_keeps_lock:
+                note(i, "after `%s` of the live holder the flock probe on LOCK says `%s` (expected `%s`)" % (lines[cur_op_line], il, exp))
+            elif il != exp and notes:
+                pass        # still what the restore left behind; already noted
+            elif il != exp:
                 if exp == "free" and il == "held" and leak:
                     known(i, "drop_outside_runtime_keeps_lock", "the store was dropped outside its runtime; flock on LOCK is still held with no holder left"
                           + (" at the instant drop() returned" if m.get("instant") else ""))
@@ -289,6 +366,13 @@ def check_script(lines, meta, impl, model, res, stats):
                 return
             if si["lock"] != "absent":
                 b.lock_exists = True
+            if cur_op is not None and cur_keeps_lock and prev_snap:
+                p = prev_snap[0]
+                what = "`%s` of the live holder" % lines[cur_op]
+                if si["lock"] != p["lock"] or si["lockhash"] != p["lockhash"]:
+                    note(i, what + " changed LOCK from %s to %s" % (p["lock"], si["lock"]))
+                if si["dirs"] != p["dirs"] or si["base"] != p["base"]:
+                    note(i, what + " changed the top-level directories from %s to %s" % (p["dirs"], si["dirs"]))
             if cur_op is not None and cur_non_holder and prev_snap and si["all"] != prev_snap[0]["all"]:
                 p = prev_snap[0]
                 opname = meta[cur_op]["op"]
@@ -317,7 +401,14 @@ def check_script(lines, meta, impl, model, res, stats):
                 for cls, w in classes:
                     known(i, cls, "`%s`: %s" % (lines[cur_op], w))
             prev_snap = (si, sm)
+            cur_op_line = cur_op
             cur_op = None
+        elif k == "lockid":
+            stats["lockid_probes"] = stats.get("lockid_probes", 0) + 1
+            if il != "same":
+                note(i, "the name LOCK no longer denotes the inode the live holder %s%d locked when it opened (`%s`)" % (m["ent"] + (il,)))
+    if flush_notes():
+        return
     if has_refusal:
         stats["nontrivial"] += 1
 
@@ -362,6 +453,26 @@ def family_detached():
             [("spawn", 1), ("open", 1), ("pkill", 1), ("open", 1), ("dropout", 1), ("spawn", 2), ("rtgone", 1), ("spawn", 3), ("pexit", 2), ("spawn", 3)],
             [("open", 1), ("dropout", 1), ("open", 2), ("dropout", 2), ("open", 3), ("dropout", 3), ("spawn", 1), ("rtgone", 2), ("rtgone", 1), ("rtgone", 3), ("pclose", 1), ("open", 1)],
             [("open", 1), ("dropout", 1), ("rtgone", 1), ("open", 1), ("drop", 1), ("open", 1), ("dropout", 1), ("spawn", 1), ("pdrop", 1), ("open", 2)],
+        ):
+            out.append(build_script(seq, opt=opt))
+    return out
+
+
+def family_restore():
+    """checkpoint / restore of the live store, directed: repeated restores, restore by the second and third holder of the
+    directory from the first holder's checkpoint (in-process and child, both directions), restore after a kill -9 of the
+    previous holder, a checkpoint taken over by a later one, restore followed by close / drop / drop outside the runtime /
+    process exit — and the next opener getting in; every order with every option set (flush_on_close off; value log;
+    versioning: vlog/ is removed and copied back, versioned_index/ is left alone)"""
+    out = []
+    for opt in ("-", "nofoc", "vlog", "ver"):
+        for seq in (
+            [("open", 1), ("ckpt", 1), ("restore", 1), ("restore", 1), ("close", 1), ("open", 2), ("restore", 2), ("drop", 2), ("drop", 1),
+             ("spawn", 1), ("prestore", 1), ("pkill", 1), ("open", 1), ("restore", 1), ("ckpt", 1), ("restore", 1), ("close", 1), ("spawn", 2)],
+            [("spawn", 1), ("pckpt", 1), ("prestore", 1), ("open", 1), ("pclose", 1), ("open", 1), ("restore", 1), ("dropout", 1),
+             ("open", 2), ("restore", 2), ("ckpt", 2), ("rtgone", 1), ("drop", 2), ("spawn", 2), ("prestore", 2), ("pexit", 2), ("open", 1)],
+            [("open", 1), ("restore", 1), ("spawn", 1), ("open", 2), ("restore", 1), ("close", 1), ("spawn", 1), ("prestore", 1), ("open", 2),
+             ("pdrop", 1), ("open", 2), ("restore", 2), ("close", 2), ("drop", 2)],
         ):
             out.append(build_script(seq, opt=opt))
     return out
@@ -448,6 +559,8 @@ def explore(ctx):
     scripts = []          # (lines, meta, family)
     total_orders = 0
     per_config = {}
+    total_restore = 0
+    per_config_restore = {}
     for (nI, nC) in CONFIGS:
         seqs = enum_sequences(nI, nC, LEN)
         total_orders += len(seqs)
@@ -469,6 +582,23 @@ def explore(ctx):
             det = rng.sample(det, 60)
         for j, d in enumerate(det):
             scripts.append(build_script(d, opt="nofoc" if (j + ctx["seed"]) % 3 == 0 else "-") + ("orders-detached",))
+        # the orders that contain a restore of a live store (in-process / child), anywhere among the other operations
+        rs = [q for q in enum_sequences(nI, nC, LEN, restore=True) if any(o in LIVE_OPS for o, _ in q)]
+        total_restore += len(rs)
+        if tier == "quick":
+            keep = 150 if nI + nC == 2 else 50
+            if len(rs) > keep:
+                rs = rng.sample(rs, keep)
+        per_config_restore["%dI+%dC" % (nI, nC)] = len(rs)
+        for j, q in enumerate(rs):
+            scripts.append(build_script(q, opt=("-", "nofoc", "vlog", "ver")[(j + ctx["seed"]) % 4] if (j % 5) < 2 else "-") + ("orders-restore",))
+        rdet = [d for d in (detach_order(q) for q in rs) if d is not None]
+        if tier == "quick" and len(rdet) > 15:
+            rdet = rng.sample(rdet, 15)
+        for d in rdet:
+            scripts.append(build_script(d) + ("orders-restore-detached",))
+    for sc in family_restore():
+        scripts.append(sc + ("restore",))
     for sc in family_options():
         scripts.append(sc + ("options",))
     for sc in family_detached():
@@ -522,13 +652,22 @@ def explore(ctx):
                 "and flock probe after every operation; plus option mixes (plain/vlog/versioning/invalid for holder and refused opener, in-process "
                 "and child), drops outside the runtime (directed orders x option sets, with the flock probe taken the instant drop() "
                 "returned), and the enumerated orders again with every in-process drop done outside the runtime (the dropped Tree's runtime "
-                "kept alive while the other openers run). non-trivial = scripts containing at least one refused open"
+                "kept alive while the other openers run); the operations of a live store that rewrite its directory: every well-formed "
+                "order of length %d over the same openers that contains a restore of a live in-process store / of a child (checkpoint taken "
+                "right before the first one)%s, across the option sets, plus directed checkpoint/restore orders x option sets: after every "
+                "restore the snapshot must show LOCK and the top-level directories unchanged, the flock probe `held`, the inode called LOCK "
+                "the one the holder opened, and an in-process and a child open must be refused and change nothing. "
+                "non-trivial = scripts containing at least one refused open"
                 % (LEN, LEN, "/".join("%dI+%dC" % c for c in CONFIGS),
                    " — exhaustive (%d orders), each with flush_on_close on and off" % total_orders if tier == "thorough"
-                   else " — sampled (%d of %d orders)" % (sum(per_config.values()), total_orders)),
+                   else " — sampled (%d of %d orders)" % (sum(per_config.values()), total_orders),
+                   LEN, " — exhaustive (%d orders)" % total_restore if tier == "thorough"
+                   else " — sampled (%d of %d orders)" % (sum(per_config_restore.values()), total_restore)),
         "samples": [" ; ".join(l for l, m in zip(s[0], s[1]) if m["kind"] == "op") for s in scripts[:3] + scripts[-4:-2]],
         "programs": len(scripts), "disagreements_checked": stats["compared"],
         "orders_total": total_orders, "orders_run_per_config": per_config, "families": fam,
+        "restore_orders_total": total_restore, "restore_orders_run_per_config": per_config_restore,
+        "live_store_ops": stats.get("live_ops", 0), "lockid_probes": stats.get("lockid_probes", 0),
         "op_mix": stats["ops"], "refused_opens": stats["refused"], "known_class_hits": stats["known_hits"],
         "instant_drop_probes": stats.get("drop_probes", 0),
         "exhaustive": tier == "thorough",
